@@ -215,3 +215,12 @@ Example C14_ex_hint_witness :
   let r := snd (FrameD.decompress spec_decode FrameD.dctx_init (FrameD.ztake 16 FrameDHint.hw_frame) 100 (FrameD.mkO false false false)) in
   FrameD.r_consumed r = 16 /\ FrameD.r_ret r = 14.
 Proof. exact FrameDHint.hint_witness. Qed.
+
+(* F21, as a statement about the OLD hint formula of dstage_storeCBlock (the current model and code use the repaired one):
+   in the state the 30-byte witness frame reaches after 16 bytes, the old formula gives 18 although 14 bytes are left. *)
+Theorem C14_old_storeCBlock_hint_refuted :
+  let s := fst (FrameD.decompress spec_decode FrameD.dctx_init (FrameD.ztake 16 FrameDHint.hw_frame) 100 (FrameD.mkO false false false)) in
+  FrameD.d_stage s = FrameD.StoreCBlock /\
+  (FrameD.d_tmpInTarget s - FrameD.d_tmpInSize s) + FrameD.bcsize s + FD_BHSize = 18 /\ FrameD.zlen FrameDHint.hw_frame - 16 = 14.
+Proof. exact FrameDHint.old_storeCBlock_hint_exceeds_frame. Qed.
+Print Assumptions C14_old_storeCBlock_hint_refuted.
